@@ -323,6 +323,7 @@ class SimNode:
         if rest == '/context/constants':
             c = dict(CONSTANTS)
             c['minimal_block_delay'] = str(self.block_delay_s)
+            c.update(self.cfg.get('constants') or {})  # e.g. a sandbox started with its own protocol parameters
             return core.Reply.js(c)
         if rest == '/operation_hashes':
             return core.Reply.js([[op['hash'] for op in vp] for vp in blk['ops']])
